@@ -54,14 +54,22 @@ func (node *tagIncludeNode) Execute(ctx *ExecutionContext, writer TemplateWriter
 		}
 		err2 = includedTpl.ExecuteWriter(includeCtx, writer)
 		if err2 != nil {
-			return err2.(*Error)
+			if e, ok := err2.(*Error); ok {
+				return e
+			}
+			// not an execution error but an error of the writer we were given
+			return ctx.OrigError(err2, nil)
 		}
 		return nil
 	}
 	// Template is already parsed with static filename
 	err := node.tpl.ExecuteWriter(includeCtx, writer)
 	if err != nil {
-		return err.(*Error)
+		if e, ok := err.(*Error); ok {
+			return e
+		}
+		// not an execution error but an error of the writer we were given
+		return ctx.OrigError(err, nil)
 	}
 	return nil
 }
